@@ -62,7 +62,7 @@ DONE = {
          "60 (quick) / 8000 (thorough) random operation histories (3..8 processes, 2..6 tasks, 1..3 contended names) on a multi-thread runtime and on a current-thread runtime with yields at the exit-propagation hooks; histories recorded at the client boundary with one logical clock; bursts of 400..3000 messages from 1..3 senders to a gated process (exactly once, in each sender's order); 2..6 tasks racing to register the same 150..1200 names; behaviour calls from a caller parked in the middle of terminating mixed with calls from a live caller.",
          "Links/monitors are compared as of a quiescent barrier before the failure; per-name histories are cut at quiescent instants and checked exactly (<= 22 overlapping operations).", "6/C18"),
  "C19": ("scripted inbound histories over a real connection with a probe-after-fault oracle and connection-membership sampling",
-         "45 (quick) / 3000 (thorough) histories: routed sends / exits / monitor exits / rpc replies must reach exactly their target with fields intact; after each of 15 survivable faults (incl. messages for a process whose handler crashed or panicked, over-deep frames followed by the deepest legal payload, control tuples with odd heads) a probe must be delivered and the connection still be registered; bursts of 150..2600 frames for a gated or slow process must each be delivered exactly once; close / EOF inside a frame / over-long length must deregister within 5 s; 12.5 s quiet periods: silence then a frame in pieces, tick then silence, then an ordinary frame.",
+         "45 (quick) / 3000 (thorough) histories: routed sends / exits / monitor exits / rpc replies must reach exactly their target with fields intact; after each of 14 survivable faults (incl. messages for a process whose handler crashed or panicked, over-deep frames followed by the deepest legal payload, control tuples with odd heads) a probe must be delivered and the connection still be registered; bursts of 150..2600 frames for a gated or slow process must each be delivered exactly once; close / EOF inside a frame / over-long length must deregister within 5 s; 12.5 s quiet periods: silence then a frame in pieces, tick then silence, then an ordinary frame.",
          "Verdict by probe delivery, never by timing; the node's 10 s read timeout is fixed in the library, so the quiet scenario needs real time.", "6/C19"),
  "C20": ("runtime round-trip / no-fabrication monitor for the Elixir wrappers, i128 reference model for ranges (debug and release builds), model-based check of proplist/map helpers and builders",
          "Every wrapper through term and wire with extreme field values, mutated terms must be rejected or accepted without fabricating a field; range len/contains/iteration/size_hint against an i128 reference over a bounds x steps grid in both build profiles; proplist<->map conversions on well-formed proplists; derive(ElixirStruct) mappings (raw-identifier fields, no fields, nested, fields named like words of the format) through term, bytes and the plain codec, wrong shapes rejected.",
